@@ -50,8 +50,9 @@ def dac3OK (t : Trace) : Bool :=
 def table (entry : List Syn) : List Syn := [u "count" 4, .rep (fun t => t.nat "count") entry]
 
 def specs : List (String × Spec) := [
-  ("ftyp", { layout := [.fld "data" .rest] }),
-  ("styp", { layout := [.fld "data" .rest] }),
+  -- ftyp / styp: major brand + minor version are mandatory (payload below 8 bytes is rejected), the rest is kept as it is
+  ("ftyp", { layout := [raw "major_brand_minor_version" 8, .fld "compatible_brands" .rest] }),
+  ("styp", { layout := [raw "major_brand_minor_version" 8, .fld "compatible_brands" .rest] }),
   ("free", { layout := [.fld "data" .rest] }),
   ("skip", { layout := [.fld "data" .rest] }),
   ("mvhd", { layout := full ++ [
